@@ -72,6 +72,7 @@ const (
 	txTimeout  = 20 * time.Millisecond
 	txMargin   = 6 * time.Millisecond
 	longWait   = 4 * time.Second // patient budget for things that must happen
+	routeWait  = 8 * time.Second // patient budget for a routing call to return
 	probeWait  = 1500 * time.Millisecond
 	maxNodes   = 8
 	tipID      = 4
@@ -438,17 +439,19 @@ func (p *peer) lastBlockAsked() int {
 // ---- world ----
 
 type world struct {
-	ctx   context.Context
-	cfg   *bitcoin_reader.Config
-	hdr   *hdrSpy
-	mgr   *bitcoin_reader.NodeManager
-	txm   *bitcoin_reader.TxManager
-	peers []*peer
-	byID  map[uuid.UUID]int
-	seq   uint64
-	txs   map[int]bool
-	stamp time.Time // no tx entry was stamped after this instant
-	doubt bool
+	ctx       context.Context
+	cfg       *bitcoin_reader.Config
+	hdr       *hdrSpy
+	mgr       *bitcoin_reader.NodeManager
+	txm       *bitcoin_reader.TxManager
+	peers     []*peer
+	byID      map[uuid.UUID]int
+	seq       uint64
+	txs       map[int]bool
+	stamp     time.Time // no tx entry was stamped after this instant
+	doubt     bool
+	hung      bool // a routing call did not return
+	panicText string
 }
 
 func newWorld(withTx bool) *world {
@@ -679,13 +682,17 @@ func parkedInManager() bool {
 // called on it and its mutex is taken at once, which keeps its run() from clearing isReady; the
 // routing call is started, and when it is parked on that mutex (in IsBusy) the mutex is released:
 // the call then meets a node that passed IsReady but whose outgoing channel is closed.
-func (w *world) routed(closing *peer, call func()) {
-	if closing == nil {
-		call()
-		return
-	}
+func (w *world) routed(closing *peer, call func()) bool {
 	done := make(chan struct{})
-	go func() { call(); close(done) }()
+	go func() {
+		defer close(done)
+		defer func() {
+			if r := recover(); r != nil {
+				w.panicText = strings.ReplaceAll(fmt.Sprint(r), " ", "_")
+			}
+		}()
+		call()
+	}()
 	finished := func() bool {
 		select {
 		case <-done:
@@ -694,14 +701,22 @@ func (w *world) routed(closing *peer, call func()) {
 			return false
 		}
 	}
-	until(longWait, func() bool { return finished() || parkedInManager() })
-	closing.node.Unlock()
-	until(longWait, finished)
-	until(longWait, closing.runReturned)
-	closing.mu.Lock()
-	closing.closed = true
-	closing.mu.Unlock()
-	closing.stage = 'x'
+	if closing != nil {
+		until(longWait, func() bool { return finished() || parkedInManager() })
+		closing.node.Unlock()
+	}
+	if !until(routeWait, finished) {
+		w.hung = true // the call still holds the manager's mutex: nothing more can be observed in this process
+		return false
+	}
+	if closing != nil {
+		until(longWait, closing.runReturned)
+		closing.mu.Lock()
+		closing.closed = true
+		closing.mu.Unlock()
+		closing.stage = 'x'
+	}
+	return true
 }
 
 // tryClose puts node k into the closing window if that gives a deterministic outcome: k is verified,
@@ -913,7 +928,9 @@ func (w *world) route(verb, op string, a hx.Args) string {
 	switch verb {
 	case "reqheaders":
 		var err error
-		w.routed(closing, func() { err = w.mgr.RequestHeaders(w.ctx) })
+		if !w.routed(closing, func() { err = w.mgr.RequestHeaders(w.ctx) }) {
+			return op + " => err=hung"
+		}
 		res = "err=" + errClass(err)
 	case "reqtxs":
 		if w.txm != nil {
@@ -924,7 +941,9 @@ func (w *world) route(verb, op string, a hx.Args) string {
 		}
 		var err error
 		t0 := time.Now()
-		w.routed(closing, func() { err = w.mgr.RequestTxs(w.ctx) })
+		if !w.routed(closing, func() { err = w.mgr.RequestTxs(w.ctx) }) {
+			return op + " => err=hung"
+		}
 		if closing != nil && time.Since(t0) > txTimeout-txMargin {
 			w.doubt = true // a retry may have met entries that had ripened again
 		}
@@ -933,9 +952,11 @@ func (w *world) route(verb, op string, a hx.Args) string {
 	case "reqblock":
 		var err error
 		var c bitcoin_reader.BlockRequestCanceller
-		w.routed(closing, func() {
+		if !w.routed(closing, func() {
 			c, err = w.mgr.RequestBlock(w.ctx, blockHash[b], blockHandler, func(context.Context) {})
-		})
+		}) {
+			return op + " => err=hung"
+		}
 		sel := "-"
 		if n, ok := c.(*bitcoin_reader.BitcoinNode); ok && n != nil {
 			if idx, ok := w.byID[n.ID()]; ok {
@@ -947,8 +968,14 @@ func (w *world) route(verb, op string, a hx.Args) string {
 		tx := wire.NewMsgTx(1)
 		tx.AddTxOut(wire.NewTxOut(0, bitcoin.Script([]byte{0x00, 0x6a, 0x01, 0x42})))
 		var err error
-		w.routed(closing, func() { err = w.mgr.SendTx(w.ctx, tx) })
+		if !w.routed(closing, func() { err = w.mgr.SendTx(w.ctx, tx) }) {
+			return op + " => err=hung"
+		}
 		res = "err=" + errClass(err)
+	}
+	if w.panicText != "" {
+		res, w.panicText = "panic #"+w.panicText, ""
+		return op + " => " + res
 	}
 	return op + " => " + res + " flm=" + hx.IntList(maskFlags(fl)) + " " + w.tail()
 }
@@ -1019,7 +1046,8 @@ func (w *world) hostile(op string, a hx.Args) string {
 
 // ---- run ----
 
-func runScript(lines []string) []string {
+// runScript returns the observations and whether the process must stop (a routing call hangs in it).
+func runScript(lines []string) ([]string, bool) {
 	var w *world
 	var out []string
 	for attempt := 0; ; attempt++ {
@@ -1056,18 +1084,25 @@ func runScript(lines []string) []string {
 				out = append(out, op+" => bad-op")
 				continue
 			}
+			if w.hung {
+				out = append(out, op+" => dead")
+				continue
+			}
 			res, ptxt := hx.Guard(func() string { return w.step(op) })
 			if ptxt != "" {
 				res = op + " => panic #" + strings.ReplaceAll(ptxt, " ", "_")
 			}
 			out = append(out, res)
 		}
+		if w != nil && w.hung {
+			return out, true
+		}
 		doubt := w != nil && w.doubt
 		if w != nil {
 			w.finish()
 		}
 		if !doubt || attempt >= 5 {
-			return out
+			return out, false
 		}
 	}
 }
@@ -1081,8 +1116,13 @@ func run() {
 		if len(script) == 0 {
 			return
 		}
-		for _, l := range runScript(script) {
+		out, fatal := runScript(script)
+		for _, l := range out {
 			fmt.Fprintln(outw, l)
+		}
+		if fatal {
+			fmt.Fprintln(os.Stderr, "a routing call of the NodeManager did not return: the harness cannot go on in this process")
+			os.Exit(3)
 		}
 		script = script[:0]
 	}
